@@ -19,3 +19,12 @@ package v1
 //@ ensures [C12:nil-iff-none-controlled] (result == nil) <==> !(exists j :: 0 <= j && j < len(revs) && CTRL(&revs[j], c) && revs[j].Spec.Revision > 0)
 //@ ensures [C12:result-is-highest-controlled] result != nil ==> forall j :: 0 <= j && j < len(revs) && CTRL(&revs[j], c) ==> revs[j].Spec.Revision <= result.Spec.Revision
 //@ ensures [C12:result-number-is-attained] result != nil ==> (exists j :: 0 <= j && j < len(revs) && CTRL(&revs[j], c) && revs[j].Spec.Revision == result.Spec.Revision)
+
+// C11: group and kind/plural names cannot change once set: an update that changes the group, the
+// composite's plural or kind, or - when both the old and the new XRD offer a claim - the claim's
+// plural or kind, is rejected with at least one error.
+//@ func (*v1.CompositeResourceDefinition).ValidateUpdate
+//@ props C11
+//@ requires c != nil && old != nil
+//@ ensures [C11:immutable-names-enforced] len(errs) == 0 ==> old(c.Spec.Group) == old(old.Spec.Group) && old(c.Spec.Names.Plural) == old(old.Spec.Names.Plural) && old(c.Spec.Names.Kind) == old(old.Spec.Names.Kind)
+//@      && ((old(c.Spec.ClaimNames) != nil && old(old.Spec.ClaimNames) != nil) ==> (old(c.Spec.ClaimNames.Plural) == old(old.Spec.ClaimNames.Plural) && old(c.Spec.ClaimNames.Kind) == old(old.Spec.ClaimNames.Kind)))
